@@ -51,7 +51,7 @@ PieceGroups ==
 Blank == [ok |-> TRUE]
 Calls ==
      {Blank @@ [a |-> "AddBalance", c |-> "x", party |-> pa, amt |-> am] :
-          pa \in {"c1", "m1"}, am \in (IF Rich THEN {0, 1, Dur0 + 5} ELSE {0, Dur0 + 5})}
+          pa \in {"c1", "m1"}, am \in (IF Rich THEN {0, 1, Dur0 + 5} ELSE {0})}
   \cup {Blank @@ [a |-> "Withdraw", c |-> c, party |-> pa, amt |-> am, paid |-> 0, to |-> "none"] :
           c \in {"c1", "o1", "w1", "x"}, pa \in {"c1", "m1"}, am \in (IF Rich THEN {-1, 0, 2, 10 * Dur0} ELSE {10 * Dur0})}
   \cup {Blank @@ [a |-> "Publish", c |-> c, batch |-> b, valid |-> <<>>, ids |-> <<>>] :
@@ -84,10 +84,11 @@ CallStep(call) ==
       /\ hist' = Append(hist, l) /\ UNCHANGED <<epoch, ticks>>
 
 Interesting ==
-  UNION {{MS.prop[i].start - 1, MS.prop[i].start, MS.prop[i].start + 1,
-          MS.prop[i].end - 1, MS.prop[i].end, MS.prop[i].end + 1} : i \in DOMAIN MS.prop}
+  UNION {IF Rich THEN {MS.prop[i].start - 1, MS.prop[i].start, MS.prop[i].start + 1,
+                        MS.prop[i].end - 1, MS.prop[i].end, MS.prop[i].end + 1}
+                  ELSE {MS.prop[i].start, MS.prop[i].start + 1, MS.prop[i].end - 1, MS.prop[i].end} : i \in DOMAIN MS.prop}
   \cup UNION {{k, k + 1} : k \in DOMAIN MS.ops}
-  \cup {epoch + 1, Start0 - 1, Start0, Start0 + 1}
+  \cup (IF Rich THEN {epoch + 1, Start0 - 1, Start0, Start0 + 1} ELSE {Start0})
 
 TickStep ==
   /\ ticks < MaxEpochs
@@ -106,20 +107,24 @@ SimNext == \/ \E call \in RandomSubset(25, Calls) : Do(MS, call, epoch).ok /\ Ca
 
 Zero == [x \in Parties |-> 0]
 MCInit ==
-  /\ MS = [escrow |-> Zero, locked |-> Zero, tcc |-> 0, tpc |-> 0, tfee |-> 0, next |-> 0,
+  /\ MS = [escrow |-> IF Rich THEN Zero ELSE [Zero EXCEPT !["c1"] = 2 * (Dur0 + 5) + 1, !["m1"] = 7],
+           locked |-> Zero, tcc |-> 0, tpc |-> 0, tfee |-> 0, next |-> 0,
            prop |-> <<>>, st |-> <<>>, pending |-> {}, ops |-> <<>>, lastCron |-> -1, psec |-> <<>>,
-           bal |-> 0, burnt |-> 0]
+           bal |-> IF Rich THEN 0 ELSE 2 * (Dur0 + 5) + 8, burnt |-> 0]
   /\ epoch = 0
-  /\ G = [dep |-> Zero, wd |-> Zero, fin |-> <<>>, act |-> {}]
+  /\ G = [dep |-> MS.escrow, wd |-> Zero, fin |-> <<>>, act |-> {}]
   /\ last = [a |-> "Init", ok |-> TRUE]
-  /\ hist = <<>> /\ ticks = 0
+  /\ hist = IF Rich THEN <<>>
+            ELSE <<[a |-> "AddBalance", ok |-> TRUE, c |-> "x", party |-> "c1", amt |-> 2 * (Dur0 + 5) + 1],
+                   [a |-> "AddBalance", ok |-> TRUE, c |-> "x", party |-> "m1", amt |-> 7]>>
+  /\ ticks = 0
   /\ TLCSet(42, {})
 
 MCSpec == MCInit /\ [][MCNext]_mcvars
 SimSpec == MCInit /\ [][SimNext]_mcvars
 
 Bound == /\ MS.next <= MaxDeals
-         /\ \A x \in Parties : G.dep[x] <= 2 * (Dur0 + 5)
+         /\ \A x \in Parties : G.dep[x] <= 2 * (Dur0 + 5) + 1
 View == <<MS, epoch, G, ticks>>
 
 Inv == StateInv(MS, G)
